@@ -35,6 +35,9 @@ def run(ctx):
     ctx.rule('C09.e-handover-reset-complete', 'the work object a rate switch hands to the other dedicated codec is completely reconfigured by the explicit reset, so that the default codec equals a fresh dedicated one (clause shared with C05.a)')
     from . import resetrules
     ctx.guard('C09.analysable', ctx.shared, {'X.full': 'C09.e-handover-reset-complete'}, resetrules.check_reset_discipline, ctx, ctx.facts(cfgs[0]), cfgs[0], 'X.drop', 'X.recv', 'X.full')
+    ctx.rule('C09.g-reused-space-like-fresh', 'after a rate switch the dedicated codec runs on a used working space: every truncated transform is preceded by zeroing of its tail, as on a fresh codec (clause shared with C05.c)')
+    from . import c05 as c05_
+    ctx.guard('C09.analysable', ctx.shared, {'C05.c-truncated-ifft-zeroed': 'C09.g-reused-space-like-fresh'}, c05_.ifft_rule, ctx, ctx.facts(cfgs[0]), cfgs[0])
     ctx.rule('C09.f-any-engine', 'the wrappers and one-shot functions (default engine) give the bytes of the default-rate codec with any engine: the selectable engines are siblings (clauses shared with C03.a / C03.e)')
     from . import c03
     ctx.guard('C09.analysable', ctx.shared, {'C03.e-kernel-siblings': 'C09.f-any-engine'}, c03.kernel_siblings, ctx, {c: ctx.facts(c) for c in ('x86_64', 'aarch64')})
